@@ -9,7 +9,7 @@
    events; `step` decides whether an event is possible in a state.  Events of the controller
    (the Go code) and of the environment (the command's processes, the kernel, the passage of
    time) interleave freely. *)
-From PlzV Require Import Base.Harness Gen.KillTimings.
+From PlzV Require Import Base.Harness Gen.KillTimings Model.C30_deadline.
 Local Open Scope N_scope.
 
 Definition sigterm : N := 15.
@@ -276,7 +276,10 @@ Inductive case :=
        (sigs : list N)             (* signals the executor logged, in order *)
        (t_term gap1 gap2 : N)      (* ms: start -> first signal, first -> second signal, second signal -> return *)
        (elapsed scan : N)          (* ms: start -> return, start -> last scan of /proc *)
-       (surv_in surv_out : N).     (* marked processes found by that scan: in the harness's session / in another session *)
+       (surv_in surv_out : N)      (* marked processes found by that scan: in the harness's session / in another session *)
+(* second stream (Model/C30_deadline.v): one build_rule call interpreted by the real asp interpreter under the
+   configuration c, and the target.BuildTimeout / target.Test.Timeout it produced (or the failure of the call) *)
+| DeadlineCase (c : dconfig) (d : decl) (observed : tres).
 
 Definition check_lat : N := 500.      (* tolerated lateness of each timer under load *)
 Definition life_margin : N := 1000.    (* a process may outlive sp_life by its own start-up delay *)
@@ -374,4 +377,5 @@ Definition check (c : case) : bool :=
            | Some st => is_ret ErrNone st && survivors_ok specs T st elapsed scan surv_in surv_out
            | None => false
            end
+  | DeadlineCase c d observed => tres_eqb (create_target c d) observed
   end.
